@@ -7,23 +7,23 @@ CHECKS = {
  "C01": ("model_checking", "explicit-state BFS over operation histories of the real code vs flat reference disk",
    "every history of the colliding alphabet up to the depth bound, from every initial image x device configuration, replayed on the real library over a simulated host; each transition checks results and a full guest sweep against RefDisk",
    "SimIo host model, RefDisk, digest-based state merging (hook H1/H4)", "5 C01"),
- "C02": ("model_checking", "explicit-state BFS over operation histories; differential reopen oracle",
-   "in every explored state whose last operation flushed, a second device opened on a copy of the file (same and alternate parameters) must sweep equal to the reference disk",
-   "as C01", "5 C02"),
+ "C02": ("model_checking", "explicit-state BFS over operation histories + schedule exploration of concurrent flushes + single-fault enumeration; differential reopen oracle",
+   "in every explored state whose last operation flushed, a second device opened on a copy of the file (same and alternate parameters) must sweep equal to the reference disk; the same after every schedule of a flush/shrink racing another call (warm and cold caches), and after every faulted history (each request failing, heal, flush_meta Ok): old device and reopened device read the same",
+   "as C01; concurrent part as C06; faulted part as C17", "5 C02"),
  "C03": ("model_checking", "explicit-state BFS over operation histories; independent qcow2 checker",
    "every flushed state's file is checked in strict mode by a checker written from the specification (exact refcounts, COPIED, alignment, double references)",
    "SpecKit checker (self-tested by damage injection)", "5 C03"),
  "C16": ("model_checking", "explicit-state BFS over operation histories; invariant on every backend request",
-   "offset, length and buffer address of every logged request of every explored transition are multiples of the block size",
+   "offset, length and buffer address of every logged request of every explored transition (incl. L1 relocation with an entry count that is no block multiple, compressed reads with 4 KiB blocks) are multiples of the block size",
    "as C01", "5 C16"),
  "C18": ("model_checking", "explicit-state BFS over operation histories; flag/file agreement oracle",
-   "in every quiescent explored state with need_flush_meta()==false: no dirty slice or top-table block in RAM, a device opened on a copy of the file sweeps equal, checker safe mode passes",
+   "in every quiescent explored state, and at the end of every schedule of a flush racing another call, with need_flush_meta()==false: no dirty slice or top-table block in RAM, a device opened on a copy of the file sweeps equal, checker safe mode passes",
    "as C01; hook H4 state dump", "5 C18"),
  "C04": ("fault_enumeration", "exhaustive crash-image enumeration over the backend request log of every explored history",
-   "for every transition of the history BFS, every fsync window it touches is expanded into all crash images (durable image x per-block choice among un-synced versions) and each distinct image is judged by the independent checker in safe mode (structure, initialised tables, no under-counted reachable cluster)",
+   "for every transition of the history BFS and every schedule of 16 concurrent flush scenarios, every fsync window it touches is expanded into all crash images (durable image x per-block choice among un-synced versions) and each distinct image is judged by the independent checker in safe mode (structure, initialised tables, no under-counted reachable cluster)",
    "crash model = POSIX contract (anything not covered by a completed fsync may persist, vanish or tear at 512-byte granularity); SpecKit checker", "5 C04"),
  "C05": ("fault_enumeration", "exhaustive crash-image enumeration; the library re-opens every crash image",
-   "same crash images as C04 plus the crash point right after each sync; the library opens each image and every block that held synced data must read its synced value or the value of an operation issued after the sync",
+   "same crash images as C04 (sequential histories and concurrent flush+fsync scenarios) plus the crash point right after each sync; the library opens each image and every block that held synced data must read its synced value or the value of an operation issued after the sync",
    "as C04", "5 C05"),
  "C06": ("model_checking", "stateless deviation-bounded exploration of all schedules under a deterministic executor; per-block linearizability by brute force",
    "for 2-3 concurrent API calls per scenario (all pairs of a colliding menu x set-ups x cache sizes + curated triples) every interleaving of task polls and backend completions within the deviation bound is executed on the real code; each execution's reads and final content must be explained by some real-time-respecting order per block, and the content must survive flush+reopen",
@@ -44,10 +44,10 @@ CHECKS = {
    "6.9k calls, one fresh device each: result vs the statement, no modifying request and unchanged content on Err, no panic with overflow checks on",
    "harness built with overflow-checks", "5 C13"),
  "C15": ("exploration", "complete enumeration of finite / boundary codec domains against an independent packer and decoder",
-   "refcount get/set raw bytes for every width x index x value x background; L2 entry classes for every cluster size; guest/host index arithmetic for every geometry around every boundary up to 2^56; header parse/serialise round trips v2/v3",
+   "refcount get/set raw bytes for every width x index x value x background; L2 entry classes for every cluster size; guest/host index arithmetic for every geometry around every boundary up to 2^56; header parse/serialise round trips v2 / v3 with header_length 104..136",
    "SpecKit packer/decoder", "5 C15"),
  "C17": ("fault_enumeration", "exhaustive single-fault (and pair-fault) injection over the request stream of every history",
-   "for every history of the reduced alphabet at the depth bound: one run per backend request failing (all pairs in thorough), per-kind failures, hole punch unsupported; the call reports Err, the device stays usable, a healed flush_meta succeeds and the reopened image holds every acknowledged write with no under-count",
+   "for every history of the reduced alphabet at the depth bound (and growth histories on short-L1 and refcount-table-edge images): one run per backend request failing (all pairs in thorough), per-kind failures, hole punch unsupported; the call reports Err, the device stays usable, a healed flush_meta succeeds and the reopened image holds every acknowledged write with no under-count",
    "failed request has no effect; backend heals completely", "5 C17"),
  "C14": ("exploration", "deterministic enumeration of malformed inputs executed in watchdog-supervised worker sub-processes",
    "header prefixes of every length, every header field x boundary values singly and in pairs, all feature bits, extension lengths 0..100 and at buffer/cluster ends, backing-name boundaries, every leading L1/L2/reftable entry x 20 bad encodings, corrupted compressed payloads, on 4 base images; open + read/get_mapping/check/write/flush must return Ok or Err: no panic, abort, hang, or allocation out of proportion; unsupported encodings refused at open",
@@ -56,13 +56,13 @@ CHECKS = {
    "1.3k (quick) foreign images over cluster size x refcount width x version x cluster kinds x placement x short L1 x backing x parameters x ragged end: get_mapping and read_at of every probe cluster equal the ground truth; format_qcow2 over sizes x geometries is valid and its derived geometry matches the specification's formulas",
    "SpecKit builder validated by the SpecKit checker before use", "5 C09"),
  "C12": ("model_checking", "explicit-state BFS from images one allocation short of each kind of metadata growth + crash-image enumeration with post-crash continuation",
-   "histories of writes/discards/flush/sync/reopen from images at the refblock edge, the refcount-table edge and with a short L1 table; C01 C02 C03 C16 oracles on every transition, C04 C05 oracles on every crash image of the growth windows, and every crash image at the refblock edge is re-opened and written until the allocator crosses the next refblock boundary",
-   "refcount-table growth and in-place L1 extension are listed known findings, so only new-refblock creation is verified beyond them", "5 C12"),
+   "histories of writes/discards/flush/sync/reopen from six images built one allocation short of a new refcount block (first / last entry of a reftable block), of the refcount table's end (relocation + header switch) and with short L1 tables (in place, relocation of one and of two clusters); C01 C02 C03 C16 oracles on every transition, C04 C05 oracles on every crash image of the growth windows, and every crash image at the refblock and refcount-table edge is re-opened and written until the allocator crosses the next refblock boundary",
+   "growth racing other calls is explored by C06/C07's growth scenarios, growth under faults by C17", "5 C12"),
  "C19": ("exploration", "complete enumeration of request sequences up to length 2 (3) over a 27-request alphabet on three real backends (5 variants) and SimIo",
    "results, read data, final file bytes and length identical across tokio, sync (buffered, O_DIRECT), io_uring (buffered, O_DIRECT) and the SimIo model; 10 guest histories through the whole library on each backend yield identical guest content",
    "ext4 root file system of the sandbox", "5 C19"),
  "C20": ("exploration", "enumeration of CLI inputs: raw sizes x contents, format parameters, consistent images x every leak position",
-   "rqcow2 convert raw->qcow2->raw reproduces the zero-padded input and terminates; rqcow2 format output passes the independent checker; Qcow2Dev::check() and rqcow2 check accept every consistent image and reject each copy with one free cluster's refcount raised",
+   "rqcow2 convert raw->qcow2->raw reproduces the zero-padded input and terminates; rqcow2 format output passes the independent checker; Qcow2Dev::check() and rqcow2 check accept every consistent image (24 shapes + all 5^4 kind assignments over four guest clusters x layouts) and reject each copy with one free cluster's refcount raised",
    "rqcow2 built from /repo by the check", "5 C20"),
 }
 NA = {}
